@@ -330,6 +330,10 @@ func init() {
 			if strings.Contains(flags, "R") {
 				dec = func(r io.Reader) wsflate.Decompressor { return &resetDec{flate.NewReader(r)} }
 			}
+			if strings.Contains(flags, "D") {
+				// a constructor that configures more than the source: a preset dictionary
+				dec = func(r io.Reader) wsflate.Decompressor { return flate.NewReaderDict(r, c18Dict) }
+			}
 			r := wsflate.NewReader(mk(kinds[0], unhx(a[1])), dec)
 			io.ReadFull(r, make([]byte, n))
 			if strings.Contains(flags, "C") {
@@ -348,6 +352,17 @@ func init() {
 		return "BADOP"
 	}
 	register("C18", genC18)
+}
+
+var c18Dict = []byte("the quick brown fox jumps over the lazy dog; abcabcabc; websocket permessage-deflate")
+
+// compDict: a complete deflate stream of p written with the preset dictionary.
+func compDict(p []byte) []byte {
+	var b bytes.Buffer
+	w, _ := flate.NewWriterDict(&b, 9, c18Dict)
+	w.Write(p)
+	w.Close()
+	return b.Bytes()
 }
 
 // resetDec: compress/flate's reader behind wsflate.ReadResetter (Reset(io.Reader)).
@@ -453,6 +468,11 @@ func genC18(tier string, r *rng) {
 			run(fmt.Sprintf("rst fr %s %d %s %s", hx(comp(h)), r.intn(len(h)+1), hx(comp(af)), []string{"bb", "bp", "pb", "pp"}[r.intn(4)]))
 			run(fmt.Sprintf("rst fr %s %d %s bp", hx(comp(h)), len(h), hx(comp(af))))
 			run(fmt.Sprintf("rst fr %s %d %s pb", hx(comp(h)), len(h), hx(comp(af))))
+		}
+		// messages that refer to a preset dictionary the constructor sets up
+		for _, af := range [][]byte{[]byte("the lazy dog jumps over the quick brown fox"), []byte("abcabcabc websocket"), {}, r.bytes(40)} {
+			run(fmt.Sprintf("rst fr %s %d %s bb D", hx(compDict(h)), len(h), hx(compDict(af))))
+			run(fmt.Sprintf("rst fr %s %d %s pb DC", hx(compDict(h)), len(h)/2, hx(compDict(af))))
 		}
 		run(fmt.Sprintf("rst fr %s 1 %s", hx([]byte{0xff, 0xff, 0xff}), hx(comp(h)))) // corrupt history
 		// corrupt or cut histories ended by Close(), decompressors with and without Reset(io.Reader)
